@@ -299,6 +299,46 @@ def _free_inputs(fn, exprs):
     return names, attrs, sorted(seen)
 
 
+def _stored_values_nonuniform(fn, actual, lf, nonuniform):
+    """does a VALUE stored into the table handed over (element stores, append / add / update arguments, keys) carry a non-uniform
+    label - as opposed to the table being filled with uniform values under conditions that carry one?"""
+    made, todo = set(), [actual]
+    while todo:
+        e = todo.pop()
+        if isinstance(e, ast.Name):
+            if e.id in made:
+                continue
+            made.add(e.id)
+            todo.extend(d.value for d in _defs_of(fn, e.id))
+        elif isinstance(e, ast.Call) and isinstance(e.func, ast.Name) and e.func.id in ("dict", "list", "tuple", "zip", "enumerate", "sorted"):
+            todo.extend(e.args)
+        elif isinstance(e, ast.Call) and isinstance(e.func, ast.Attribute) and e.func.attr in ("copy", "items", "keys", "values") and not e.args:
+            todo.append(e.func.value)
+    if not made:
+        return True                                     # not a table built in this function: the labels of the expression stand
+    values = []
+    for n in ast.walk(fn):
+        if isinstance(n, (ast.Assign, ast.AugAssign)):
+            tg = n.targets if isinstance(n, ast.Assign) else [n.target]
+            for t in tg:
+                if isinstance(t, ast.Subscript) and _root_name(t) in made:
+                    values.append(n.value)
+                    values.append(t.slice)
+                elif isinstance(t, ast.Name) and t.id in made and not isinstance(n.value, (ast.Name,)):
+                    values.extend(x for x in ast.walk(n.value) if isinstance(x, (ast.DictComp, ast.ListComp, ast.Dict, ast.List, ast.Tuple)))
+        elif isinstance(n, ast.Call) and isinstance(n.func, ast.Attribute) and \
+                n.func.attr in ("append", "extend", "insert", "add", "update", "setdefault") and _root_name(n.func.value) in made:
+            values.extend(n.args)
+            values.extend(k.value for k in n.keywords)
+    found = False
+    for v in values:
+        for x in ast.walk(v):
+            labs = lf.at.get(x)
+            if labs and nonuniform(labs):
+                found = True
+    return found if values else True
+
+
 def b4_choice_uniform(chk, mod, fn, conds, s):
     """every condition that governs a store into the route table reads rank-uniform values only: the route search runs on every
     rank on its own, so the routes agree only if every comparison it makes comes out the same everywhere.  Labels come from the
@@ -393,6 +433,14 @@ def b4_choice_uniform(chk, mod, fn, conds, s):
             al = clf.at.get(actual)
             if al is None:
                 verdict, why = None, f"no labels for the actual `{src(actual)[:40]}` of `{p_}` in {cfi.qual}"
+                continue
+            if nonuniform(al) and not _stored_values_nonuniform(cfi.node, actual, clf, nonuniform):
+                # the labels reach the table only through the CONDITIONS under which its entries are stored (control dependence), not
+                # through a value stored in it: the label domain merges the fields of records and the results of helper methods, so
+                # this does not show that the entries differ between ranks
+                verdict, why = None, (f"{cfi.qual} passes `{src(actual)[:40]}` for `{p_}`; the values stored in it carry rank-uniform labels, "
+                                      f"but they are stored under conditions labelled {sorted(nonuniform(al))}: whether these conditions "
+                                      "can differ between ranks is not decided by the label analysis")
                 continue
             if nonuniform(al):
                 return chk.ob("B4-choice-uniform", conds[0][0], "conditions of the route updates", False,
@@ -1253,6 +1301,372 @@ def b10_split_roles(chk):
     return n
 
 
+
+# ------------------------------------------------------------------ B4 (input order) / B11
+def _root_name(e):
+    """the name an expression is rooted at: X in X[i][1], X.attr, X[k].append"""
+    while isinstance(e, (ast.Subscript, ast.Attribute, ast.Call)):
+        e = e.func if isinstance(e, ast.Call) else e.value
+    return e.id if isinstance(e, ast.Name) else None
+
+
+def b4_input_order(chk, prog=None):
+    """caller + route search as one unit: the search walks its argument in the order it is given (`for source in table.keys()`,
+    `for aim in table[via]`) and builds routes from the routes found so far, so what it stores is the same on every rank only if
+    the table is ORDERED the same on every rank.  Lists and dicts keep the order of their construction; a table filled while
+    iterating over a set of layout names has the order of their hashes, which are salted per interpreter."""
+    lay = chk.mod(U.LAYOUT)
+    q0 = "LayoutManager._makeConnectionMap"
+    try:
+        search = lay.func(q0)
+    except AnalysisError:
+        return 0
+    params = [a.arg for a in search.args.args if a.arg != "self"]
+    if not params:
+        return 0
+    tab = params[0]
+    # does the search itself impose an order on what it is given?
+    walks = []
+    for n in ast.walk(search):
+        its = [n.iter] if isinstance(n, (ast.For, ast.comprehension)) else []
+        for it in its:
+            if tab in {x.id for x in ast.walk(it) if isinstance(x, ast.Name)}:
+                walks.append(it)
+    imposes = bool(walks) and all(isinstance(it, ast.Call) and isinstance(it.func, ast.Name) and it.func.id == "sorted" for it in walks)
+    n_sites = 0
+    for q, fn in lay.functions().items():
+        for c in ast.walk(fn):
+            if not (isinstance(c, ast.Call) and isinstance(c.func, ast.Attribute) and c.func.attr == search.name and
+                    isinstance(c.func.value, ast.Name) and c.func.value.id == "self"):
+                continue
+            owner = c
+            while owner is not None and not isinstance(owner, ast.FunctionDef):
+                owner = parent(owner)
+            if owner is not fn:
+                continue
+            actual = c.args[0] if c.args else next((k.value for k in c.keywords if k.arg == tab), None)
+            if actual is None:
+                continue
+            n_sites += 1
+            what = f"{src(c)[:60]}: order of the table"
+            if imposes:
+                chk.ob("B4-input-order", c, what, True, "the route search walks its argument through sorted(...) only: the order in which "
+                       "the caller built the table does not matter", file=lay.rel, func=q)
+                continue
+            # names the table is made of: the actual and what it is copied / converted from (dict(myMap), list(x), x.copy())
+            made, todo = set(), [actual]
+            comps = []                      # comprehensions that are (part of) a definition of the table
+            opaque = None
+            while todo:
+                e = todo.pop()
+                if isinstance(e, ast.Name):
+                    if e.id in made:
+                        continue
+                    made.add(e.id)
+                    for d in _defs_of(fn, e.id):
+                        todo.append(d.value)
+                elif isinstance(e, ast.Call) and isinstance(e.func, ast.Name) and e.func.id in ("dict", "list", "tuple", "OrderedDict", "zip",
+                                                                                              "enumerate", "reversed") :
+                    todo.extend(e.args)
+                elif isinstance(e, ast.Call) and isinstance(e.func, ast.Attribute) and e.func.attr in ("copy", "items", "keys", "values") and not e.args:
+                    todo.append(e.func.value)
+                elif isinstance(e, (ast.DictComp, ast.ListComp, ast.GeneratorExp, ast.SetComp)):
+                    comps.append(e)
+                elif isinstance(e, (ast.Dict, ast.List, ast.Tuple, ast.Constant)):
+                    for x in ast.walk(e):
+                        if isinstance(x, (ast.DictComp, ast.ListComp, ast.GeneratorExp, ast.SetComp)):
+                            comps.append(x)
+                elif isinstance(e, ast.Call) and isinstance(e.func, ast.Name) and e.func.id in ("set", "frozenset"):
+                    comps.append(e)
+                else:
+                    opaque = e
+            # loops that fill it: a store into / a mutating call on something rooted at one of these names
+            feeders = []
+            for lp in ast.walk(fn):
+                if not isinstance(lp, ast.For):
+                    continue
+                fills = False
+                for st in ast.walk(lp):
+                    if isinstance(st, (ast.Assign, ast.AugAssign)):
+                        tg = st.targets if isinstance(st, ast.Assign) else [st.target]
+                        if any(isinstance(t, ast.Subscript) and _root_name(t) in made for t in tg):
+                            fills = True
+                    elif isinstance(st, ast.Call) and isinstance(st.func, ast.Attribute) and \
+                            st.func.attr in ("append", "extend", "insert", "add", "update", "setdefault") and _root_name(st.func.value) in made:
+                        fills = True
+                if fills:
+                    feeders.append((lp, lp.iter))
+            for cp in comps:
+                if isinstance(cp, ast.Call):
+                    feeders.append((cp, cp))
+                else:
+                    for g in cp.generators:
+                        feeders.append((cp, g.iter))
+            hashed = []
+            for node, it in feeders:
+                x = it
+                while isinstance(x, ast.Call) and isinstance(x.func, ast.Name) and x.func.id in ("enumerate", "list", "tuple", "reversed", "iter", "zip") and x.args:
+                    x = x.args[0]
+                if isinstance(x, ast.Call) and isinstance(x.func, ast.Name) and x.func.id == "sorted":
+                    continue
+                if isinstance(x, ast.Subscript):
+                    x = x.value                 # a slice of a list is a list; of a set there is none
+                st_ = _set_typed(fn, x)
+                if st_ is not None and st_[1] != "int":
+                    lit = _resolve_literal(fn, x) if isinstance(x, (ast.Name, ast.Attribute)) else x
+                    hashed.append((node, it, lit))
+            if hashed:
+                node, it, lit = hashed[0]
+                chk.ob("B4-input-order", node, what, False,
+                       f"the table `{src(actual)}` handed to the route search is filled while iterating over `{src(it)[:50]}`" +
+                       (f" (= `{src(lit)[:50]}`)" if lit is not it and src(lit) != src(it) else "") + ", a set of layout names: its keys and "
+                       "neighbour lists come in the order of the string hashes, which are salted per interpreter, so every rank hands the "
+                       f"search a differently ordered table.  {search.name} walks the table in the order given (`" +
+                       (src(walks[0])[:50] if walks else "its loops") + "`) and builds routes from the routes found so far: with several "
+                       "equally long routes the ranks keep different ones and then transpose over different sub-communicators (mismatched "
+                       "collectives, deadlock)", file=lay.rel, func=q)
+            elif opaque is not None and not feeders:
+                chk.ob("B4-input-order", c, what, None, f"how the table `{src(actual)[:40]}` is built (`{src(opaque)[:50]}`) was not followed",
+                       file=lay.rel, func=q)
+            else:
+                chk.ob("B4-input-order", c, what, True, f"the table is filled in {len(feeders)} loop(s) / comprehension(s) over lists and "
+                       "dict views, which keep the order of their construction: no set is iterated while it is built in this function",
+                       file=lay.rel, func=q)
+    return n_sites
+
+
+def b11_topology_size(chk):
+    """caller + callee as one unit: a Cartesian topology is created on communicator C with a process grid G (Create_cart is
+    collective on C and the product of G must be the size of C on EVERY member).  Where G is computed from a number of processes,
+    that number is the size of C itself - not a quantity of another communicator C was split from, which fits at most one of the
+    groups of the split."""
+    n = 0
+    # functions that create the topology on a parameter with a grid that is a parameter: (rel, name) -> (comm param index, grid param index)
+    makers = {}
+    for rel in UNITS:
+        for q, fn in chk.mod(rel).functions().items():
+            ps = [a.arg for a in fn.args.args]
+            for c in ast.walk(fn):
+                if isinstance(c, ast.Call) and isinstance(c.func, ast.Attribute) and c.func.attr == "Create_cart" and c.args and \
+                        isinstance(c.func.value, ast.Name) and c.func.value.id in ps and isinstance(c.args[0], ast.Name) and c.args[0].id in ps \
+                        and "." not in q:
+                    makers[q] = (ps.index(c.func.value.id), ps.index(c.args[0].id), ps)
+    for rel in UNITS:
+        mod = chk.mod(rel)
+        for q, fn in mod.functions().items():
+            sites = []
+            for c in ast.walk(fn):
+                if not isinstance(c, ast.Call):
+                    continue
+                if isinstance(c.func, ast.Name) and c.func.id in makers:
+                    ic, ig, ps = makers[c.func.id]
+                    kw = {k.arg: k.value for k in c.keywords}
+                    ce = c.args[ic] if ic < len(c.args) else kw.get(ps[ic])
+                    ge = c.args[ig] if ig < len(c.args) else kw.get(ps[ig])
+                    if ce is not None and ge is not None and not any(isinstance(a, ast.Starred) for a in c.args):
+                        sites.append((c, ce, ge, f"{c.func.id} -> Create_cart"))
+                elif isinstance(c.func, ast.Attribute) and c.func.attr == "Create_cart" and c.args:
+                    sites.append((c, c.func.value, c.args[0], "Create_cart"))
+            sites.sort(key=lambda x: (x[0].lineno, x[0].col_offset))
+            done_pairs = set()
+            for c, ce, ge, how in sites:
+                if not isinstance(ge, ast.Name) or not isinstance(ce, ast.Name):
+                    continue
+                if (ce.id, ge.id) in done_pairs:
+                    continue                    # same communicator and same grid as an earlier site of this function: one obligation
+                done_pairs.add((ce.id, ge.id))
+                more = sum(1 for x in sites if isinstance(x[1], ast.Name) and isinstance(x[2], ast.Name) and (x[1].id, x[2].id) == (ce.id, ge.id)) - 1
+                if more:
+                    how = how + f"; {more} more call(s) with the same communicator and grid in this function"
+                gdefs = _defs_of(fn, ge.id)
+                grids = [d.value for d in gdefs if isinstance(d.value, ast.Call) and "process_grid" in src(d.value.func)]
+                if not gdefs or len(grids) != len(gdefs):
+                    continue                    # the grid is a parameter / a literal: nothing is computed from a size here
+                n += 1
+                what = f"{src(c)[:60]}: grid for the size of its communicator"
+                sizes, unresolved = [], None
+                for g in grids:
+                    se = g.args[1] if len(g.args) > 1 else next((k.value for k in g.keywords if "size" in (k.arg or "") or "proc" in (k.arg or "")), None)
+                    if se is None:
+                        unresolved = src(g)
+                        continue
+                    todo, seen = [se], set()
+                    exprs = []
+                    while todo:
+                        e = todo.pop()
+                        if isinstance(e, ast.Name) and e.id not in seen and _defs_of(fn, e.id):
+                            seen.add(e.id)
+                            todo.extend(d.value for d in _defs_of(fn, e.id))
+                        else:
+                            exprs.append(e)
+                    sizes.extend(exprs)
+                comms_of_size = set()
+                exact = True
+                for e in sizes:
+                    gs = [x for x in ast.walk(e) if isinstance(x, ast.Call) and isinstance(x.func, ast.Attribute) and x.func.attr == "Get_size"]
+                    if not gs:
+                        unresolved = unresolved or src(e)
+                    for x in gs:
+                        comms_of_size.add(src(x.func.value))
+                    if not (len(gs) == 1 and gs[0] is e):
+                        exact = False
+                cdefs = [d.value for d in _defs_of(fn, ce.id)]
+                if unresolved is not None or not comms_of_size:
+                    chk.ob("B11-topology-size", c, what, None, f"the number of processes the grid `{ge.id}` is computed for "
+                           f"(`{(unresolved or '?')[:50]}`) was not traced to the size of a communicator", file=rel, func=q)
+                    continue
+                if comms_of_size == {ce.id} and exact:
+                    chk.ob("B11-topology-size", c, what, True, f"the grid `{ge.id}` is computed for `{ce.id}.Get_size()` processes and the "
+                           f"topology is created on `{ce.id}` itself ({how})", file=rel, func=q)
+                    continue
+                split_of = [d for d in cdefs if isinstance(d, ast.Call) and isinstance(d.func, ast.Attribute) and d.func.attr == "Split" and
+                            src(d.func.value) in comms_of_size]
+                if ce.id not in comms_of_size and split_of:
+                    par_ = sorted(comms_of_size)[0]
+                    chk.ob("B11-topology-size", c, what, False,
+                           f"the process grid `{ge.id}` is computed for `{src(sizes[0])[:70]}` processes, a quantity of the communicator `{par_}`, "
+                           f"but the topology is created ({how}) on `{ce.id}`, which is `{src(split_of[0])[:60]}`: the groups of a split have "
+                           "different sizes, so one expression of the parent's size fits at most one of them.  On the ranks of the other "
+                           "group (a plotting rank alone in its group) Create_cart is asked for a grid whose number of processes is not the "
+                           "size of the communicator: that rank fails during set-up while the others go on and wait for it in the next "
+                           f"collective on `{par_}`", file=rel, func=q)
+                else:
+                    chk.ob("B11-topology-size", c, what, None, f"the grid `{ge.id}` is computed for `{src(sizes[0])[:60]}` processes; that this is "
+                           f"the size of `{ce.id}`, on which the topology is created, was not established", file=rel, func=q)
+    return n
+
+
+
+# ------------------------------------------------------------------ B12
+_FS_READS = ("os.path.exists", "os.path.isdir", "os.path.isfile", "os.path.lexists", "os.listdir", "os.stat", "os.access", "glob.glob",
+             "os.path.getsize", "os.path.getmtime", "os.scandir")
+_FS_WRITES = ("os.mkdir", "os.makedirs", "os.remove", "os.unlink", "os.rmdir", "os.rename", "os.replace", "shutil.rmtree", "shutil.move",
+              "shutil.copy", "shutil.copyfile", "os.removedirs", "np.save", "np.savetxt", "np.savez")
+
+
+def _fs_write(c):
+    """is the call a modification of the file system? -> description or None"""
+    f = src(c.func)
+    if f in _FS_WRITES:
+        return f
+    if f in ("open", "io.open", "h5py.File") or (isinstance(c.func, ast.Attribute) and c.func.attr == "File" and src(c.func.value) == "h5py"):
+        mode = c.args[1] if len(c.args) > 1 else next((k.value for k in c.keywords if k.arg == "mode"), None)
+        if isinstance(mode, ast.Constant) and isinstance(mode.value, str) and any(ch in mode.value for ch in "wax+"):
+            return f"{f}(..., {mode.value!r})"
+    return None
+
+
+def b12_fs_race(chk, s, tracers):
+    """the state of the (shared) file system is the same for every rank only while nobody changes it: a collective that is control
+    dependent on a file-system test evaluated by several ranks, in a function that itself modifies the file system after that test
+    with no collective in between on the writer's path, is a time-of-check / time-of-use race - a rank that arrives after the write
+    sees another state, takes the other branch, and the collective sequences no longer match"""
+    from ..core import guards_of
+    from ..spmd import nonuniform
+    n = 0
+    for key, tr in tracers.items():
+        fi = s.funcs[key]
+        fn = fi.node
+        events = sorted((c for c in tr.ev_nodes if s._owner(c) is fn), key=lambda c: (c.lineno, c.col_offset))
+        if not events:
+            continue
+        env = {}
+        for a in ast.walk(fn):
+            if isinstance(a, ast.Assign) and len(a.targets) == 1 and isinstance(a.targets[0], ast.Name):
+                env.setdefault(a.targets[0].id, []).append(a)
+
+        def fs_reads(t, depth=0):
+            """file-system tests the value of the expression comes from, with the statement that evaluates them"""
+            out = []
+            for x in ast.walk(t):
+                if isinstance(x, ast.Call) and src(x.func) in _FS_READS:
+                    out.append(x)
+                elif isinstance(x, ast.Name) and isinstance(x.ctx, ast.Load) and depth < 3:
+                    for a in env.get(x.id, []):
+                        out.extend(fs_reads(a.value, depth + 1))
+            return out
+        writes = [(c, _fs_write(c)) for c in ast.walk(fn) if isinstance(c, ast.Call) and s._owner(c) is fn and _fs_write(c)]
+        seen_tests = set()
+        for c in events:
+            for t, pol, kind in guards_of(c):
+                if kind not in ("if", "while", "ifexp") or id(t) in seen_tests:
+                    continue
+                reads = fs_reads(t)
+                if not reads:
+                    continue
+                seen_tests.add(id(t))
+                rd = min(reads, key=lambda x: (x.lineno, x.col_offset))
+                # evaluated by one rank only (inside a branch on the rank)?  then it is that rank's private decision
+                st_rd = rd
+                while not isinstance(st_rd, ast.stmt):
+                    st_rd = parent(st_rd)
+                rank_only = any(k_ in ("if", "while") and "RANK" in tr.lf.at.get(t_, set()) for t_, _, k_ in guards_of(st_rd))
+                if rank_only:
+                    continue
+                n += 1
+                later = [(w, d) for w, d in writes if (w.lineno, w.col_offset) > (rd.lineno, rd.col_offset)]
+                what = f"{src(c)[:40]} under `{src(t)[:50]}`"
+                if not later:
+                    chk.ob("B12-fs-race", c, what, True, f"the collective depends on the file-system test `{src(rd)[:50]}`; the function does "
+                           "not modify the file system after that test: every rank sees the same state (shared file system)",
+                           file=fi.rel, func=fi.qual)
+                    continue
+                verdicts = []
+                for w, d in later:
+                    # collectives on EVERY path from the test to the write: those whose enclosing tests all enclose the write as well
+                    wg = {id(t_): pol_ for t_, pol_, k_ in guards_of(w) if k_ == "if"}
+                    between = []
+                    for e_ in events:
+                        if not ((rd.lineno, rd.col_offset) < (e_.lineno, e_.col_offset) < (w.lineno, w.col_offset)):
+                            continue
+                        eg = {id(t_): pol_ for t_, pol_, k_ in guards_of(e_) if k_ == "if"}
+                        if any(wg.get(k_) != p_ for k_, p_ in eg.items()):
+                            continue                # under a test that the write is not under (or its other arm): a path to the write avoids it
+                        between.append(e_)
+                    verdicts.append((w, d, between))
+                racy = [(w, d) for w, d, b_ in verdicts if not b_]
+
+                def path_words(e, depth=0):
+                    """names and string pieces the path expression is made of (locals resolved)"""
+                    out = set()
+                    for x in ast.walk(e):
+                        if isinstance(x, ast.Constant) and isinstance(x.value, str):
+                            out |= {w_ for w_ in x.value.replace("{", "/").replace("}", "/").split("/") if len(w_) > 2}
+                        elif isinstance(x, ast.Name) and isinstance(x.ctx, ast.Load):
+                            out.add("$" + x.id)
+                            if depth < 3:
+                                for a in env.get(x.id, []):
+                                    out |= path_words(a.value, depth + 1)
+                    return out - {"$os", "$np", "$h5py", "$open", "$print"}
+                rw = path_words(ast.Tuple(elts=list(rd.args), ctx=ast.Load()))
+                scored = sorted(((len(rw & path_words(ast.Tuple(elts=list(w.args), ctx=ast.Load()))), -w.lineno, w, d) for w, d in racy),
+                                key=lambda x: (x[0], x[1]), reverse=True)
+                if racy and scored[0][0] == 0:
+                    w, d = racy[0]
+                    chk.ob("B12-fs-race", c, what, None, f"the collective depends on the file-system test `{src(rd)[:50]}` and the function "
+                           f"writes to the file system afterwards (`{src(w)[:40]}`) with no collective in between; whether the write touches "
+                           "what the test looks at was not established", file=fi.rel, func=fi.qual)
+                elif racy:
+                    # the write whose path shares most with the tested path (a string piece counts as much as a name; later writes first)
+                    best = max(scored, key=lambda x: (len({y for y in rw & path_words(ast.Tuple(elts=list(x[2].args), ctx=ast.Load()))
+                                                          if not y.startswith("$")}), x[0]))
+                    w, d = best[2], best[3]
+                    wconds = [("" if pol_ else "not ") + src(t_)[:40] for t_, pol_, k_ in guards_of(w) if k_ == "if"]
+                    chk.ob("B12-fs-race", c, what, False,
+                           f"`{src(c)[:50]}` is issued or skipped according to `{src(rd)[:60]}`, a test of the file system that every rank "
+                           f"evaluates on its own, and the function itself changes that state afterwards: `{src(w)[:60]}` (line {w.lineno}" +
+                           (f", when `{' and '.join(reversed(wconds))[:90]}`" if wconds else "") + ") with no collective between the test and "
+                           "the write on that path.  A rank that reaches the test after another rank has written sees another answer (time of "
+                           "check / time of use): it takes the other branch, and the collective has no partner - the ranks wait for ever.  "
+                           "The shared-file-system assumption makes such tests rank-uniform only while nobody writes", file=fi.rel, func=fi.qual)
+                else:
+                    w, d, b_ = verdicts[0]
+                    chk.ob("B12-fs-race", c, what, None, f"the collective depends on the file-system test `{src(rd)[:50]}` and the function "
+                           f"writes (`{src(w)[:40]}`) after `{src(b_[0])[:40]}`: whether that collective orders the write after every rank's "
+                           "test is not decided", file=fi.rel, func=fi.qual)
+    return n
+
+
 # ------------------------------------------------------------------ B5
 GATHERV_TEMPLATE = """
 sizes = [coords.pop() for coords in mpi_data]
@@ -1470,10 +1884,18 @@ def run(chk):
         "the rank compared with the root of a rooted collective is the rank on the communicator of that collective; B7: the send and "
         "receive buffers of Alltoall / Allgather (counts = buffer lengths) are related by the communicator size as expressions, and "
         "neither is sized with the actual local size of a layout while the other is padded; B8: an explicit raise with collectives "
-        "still to come is taken under rank-uniform conditions only. Refinements of "
+        "still to come is taken under rank-uniform conditions only; B4-input-order: the table handed to the route search (caller and "
+        "search read as one unit) is not filled while iterating over a set of layout names, unless the search sorts what it walks; "
+        "B11: where a process grid is computed from a number of processes and a Cartesian topology is created with it, that number "
+        "is the size of the communicator of the topology, not a quantity of a communicator it was split from; B12: a collective that "
+        "depends on a file-system test evaluated by several ranks, in a function that modifies the file system after the test with no "
+        "collective in between, is a time-of-check / time-of-use race (the shared-file-system assumption holds while nobody writes). "
+        "Refinements of "
         "engine B's verdicts made here: presence (`is None`) of attributes decided from their assignments, apart from their content; "
         "loops over tables written out in the source have a fixed trip count and their variables take the entries of one column.")
     chk.assumptions += [
+        "the nodes of the connection graph handed to the route search are layout names, i.e. strings (documented API of the layout "
+        "managers): a set of them is iterated in the order of salted hashes (rules B4)",
         "arguments documented as 'the same on all ranks' (layout names, foldername, saveStep, constants, file contents on a shared file system) are rank-uniform at the entry points",
         "1 <= p <= n in every distributed dimension (no empty block except on the dedicated plot-only rank)",
         "mpi4py/h5py collective semantics as listed in DESIGN.md section 3",
@@ -1492,6 +1914,8 @@ def run(chk):
     b6_root_role(chk, prog)
     b7_collective_counts(chk)
     b10_split_roles(chk)
+    b4_input_order(chk)
+    b11_topology_size(chk)
     proxy = _Deferring(chk)
     try:
         s, tracers = run_spmd(proxy, prog, UNITS, b4_ok_funcs=("_makeConnectionMap",) if b4ok else ())
@@ -1504,6 +1928,7 @@ def run(chk):
     refine_tables(chk, proxy._held_tables, s)
     b8_local_raise(chk, s, tracers)
     b9_ordered_collective_loops(chk, s, tracers)
+    b12_fs_race(chk, s, tracers)
     ncoll = sum(len(fi.collective_sites) for fi in s.funcs.values())
     nfun = sum(1 for fi in s.funcs.values() if fi.is_collective)
     chk.extra["collective_call_sites"] = ncoll
